@@ -51,12 +51,12 @@ impl BuildModuleDefinitions {
         }
     }
 
+    /// Registers the module and returns the name it is stored under.
     pub(crate) fn build_module_from_resource(
         &mut self,
         required_resource: RequiredResource,
         require_path: &Path,
-        call: &FunctionCall,
-    ) -> DarkluaResult<Expression> {
+    ) -> DarkluaResult<String> {
         let mut block = match required_resource {
             RequiredResource::Block(block) => {
                 if let Some(LastStatement::Return(return_statement)) = block.get_last_statement() {
@@ -91,6 +91,14 @@ impl BuildModuleDefinitions {
         );
         self.rename_type_declaration
             .insert_module_types(module_name.clone(), exported_types);
+
+        Ok(module_name)
+    }
+
+    /// Builds the expression that replaces a require call to the given module. The comments
+    /// and spacing are taken from the call being replaced.
+    pub(crate) fn build_module_access(&self, module_name: &str, call: &FunctionCall) -> Expression {
+        let module_name = module_name.to_owned();
 
         let token_trivia_identifier = match call.get_prefix() {
             Prefix::Identifier(require_identifier) => require_identifier.get_token(),
@@ -146,7 +154,7 @@ impl BuildModuleDefinitions {
         .with_arguments(arguments)
         .into();
 
-        Ok(new_require_call)
+        new_require_call
     }
 
     fn generate_module_name(&mut self) -> String {
